@@ -29,10 +29,11 @@ type c17Row struct {
 }
 
 type c17AsmCase struct {
-	Stream string            `json:"stream"`
-	Rows   string            `json:"rows"`   // fp:val:ts,… in scan order
-	Labels map[string]string `json:"labels"` // fp -> "k=v,k=v" as stored (unsorted)
-	Impl   string            `json:"impl,omitempty"`
+	Stream string                 `json:"stream"`
+	Rows   string                 `json:"rows"`            // fp:val:ts,… in scan order
+	Labels map[string]string      `json:"labels"`          // fp -> "k=v,k=v" as stored (unsorted); for reading only
+	Pairs  map[string][][2]string `json:"pairs,omitempty"` // fp -> label pairs as stored (used by the replay)
+	Impl   string                 `json:"impl,omitempty"`
 }
 
 func c17RowsStr(rows []c17Row) string {
@@ -166,13 +167,19 @@ func c17KeysStr(fps []uint64, lbls map[uint64][][2]string) string {
 	for _, fp := range fps {
 		st := append([][2]string(nil), lbls[fp]...)
 		sort.Slice(st, func(i, j int) bool { return st[i][0] < st[j][0] })
-		k := c17LabelsStr(st)
+		k := c17LabelsKey(st)
 		if _, ok := ids[k]; !ok {
 			ids[k] = len(ids) + 1
 		}
 		parts = append(parts, fmt.Sprintf("%d:%d", fp, ids[k]))
 	}
 	return strings.Join(parts, ",")
+}
+
+// c17LabelsKey is the identity of a label set inside the harness (JSON of the pairs: unambiguous)
+func c17LabelsKey(l [][2]string) string {
+	b, _ := json.Marshal(l)
+	return string(b)
 }
 
 func c17LabelsStr(l [][2]string) string {
@@ -228,13 +235,17 @@ func c17RunAssembly(r *h.Result, sc *fakes.Script, q storage.Querier, rows []c17
 	for fp, l := range lbls {
 		lstr[strconv.FormatUint(fp, 10)] = c17LabelsStr(l)
 	}
-	rep := c17AsmCase{Stream: "assemble", Rows: c17RowsStr(rows), Labels: lstr}
+	pstr := map[string][][2]string{}
+	for fp, l := range lbls {
+		pstr[strconv.FormatUint(fp, 10)] = l
+	}
+	rep := c17AsmCase{Stream: "assemble", Rows: c17RowsStr(rows), Labels: lstr, Pairs: pstr}
 	// oracle: each label set once; under it exactly the rows of the fingerprints carrying it (for one fingerprint:
 	// in their order of arrival; merged fingerprints: ascending by timestamp); the series' own labels
 	keyOf := func(fp uint64) string {
 		st := append([][2]string(nil), lbls[fp]...)
 		sort.Slice(st, func(i, j int) bool { return st[i][0] < st[j][0] })
-		return c17LabelsStr(st)
+		return c17LabelsKey(st)
 	}
 	type grp struct {
 		fps     []uint64
@@ -277,7 +288,7 @@ func c17RunAssembly(r *h.Result, sc *fakes.Script, q storage.Querier, rows []c17
 		for _, l := range s.Labels {
 			st = append(st, [2]string{l.Name, l.Value})
 		}
-		k := c17LabelsStr(st)
+		k := c17LabelsKey(st)
 		seen[k]++
 		if seen[k] == 2 {
 			r.Violate("C17/assembly-labelset-twice", fmt.Sprintf("label set {%s} is handed to the engine as %d series", k, 2), rep)
@@ -311,7 +322,27 @@ func c17RunAssembly(r *h.Result, sc *fakes.Script, q storage.Querier, rows []c17
 	}
 	for _, k := range order {
 		if seen[k] == 0 {
-			r.Violate("C17/assembly-series-lost", fmt.Sprintf("label set {%s} has rows but no series", k), rep)
+			// is it the 'name=value' joined by blanks key of ReshuffleSeries that made two label sets one?
+			blank := func(key string) string {
+				var st [][2]string
+				_ = json.Unmarshal([]byte(key), &st)
+				p := make([]string, len(st))
+				for i, kv := range st {
+					p[i] = kv[0] + "=" + kv[1]
+				}
+				return strings.Join(p, " ")
+			}
+			collides := false
+			for _, k2 := range order {
+				if k2 != k && blank(k2) == blank(k) {
+					collides = true
+				}
+			}
+			if collides {
+				r.Violate("C17/assembly-distinct-labelsets-merged", fmt.Sprintf("label set %s has rows but no series: another label set renders to the same 'name=value name=value' text and took its samples", k), rep)
+			} else {
+				r.Violate("C17/assembly-series-lost", fmt.Sprintf("label set %s has rows but no series", k), rep)
+			}
 		}
 	}
 	return canon, nil
@@ -396,6 +427,7 @@ func c17Assembly(r *h.Result, rng *h.Rng, n int) error {
 		unsortedTs := rng.Chance(10)
 		val := int64(0)
 		dupSets := len(fps) >= 2 && rng.Chance(15)
+		collide := len(fps) >= 2 && !dupSets && rng.Chance(12)
 		for i, fp := range fps {
 			lbls[fp] = c17GenLabels(rng, fp)
 			if dupSets && i > 0 && rng.Chance(50) {
@@ -407,6 +439,15 @@ func c17Assembly(r *h.Result, rng *h.Rng, n int) error {
 					cp[a], cp[b] = cp[b], cp[a]
 				}
 				lbls[fp] = cp
+			}
+			if collide && i > 0 && rng.Chance(60) {
+				// a different label set whose 'name=value' pairs joined by blanks read the same as an earlier one's:
+				// {a="b c=d"} against {a="b", c="d"} (also with quotes and backslashes in the value)
+				tail := h.Pick(rng, []string{"d", "d\"e", "d\\", "", "x y"})
+				if i%2 == 1 {
+					lbls[fps[i-1]] = [][2]string{{"__name__", "m"}, {"a", "b c=" + tail}}
+					lbls[fp] = [][2]string{{"c", tail}, {"__name__", "m"}, {"a", "b"}}
+				}
 			}
 			ns := rng.Range(1, 8)
 			ts := int64(rng.Range(-3, 50))
@@ -430,11 +471,18 @@ func c17Assembly(r *h.Result, rng *h.Rng, n int) error {
 		if dupSets {
 			r.Count("assemble:label-set-under-two-fingerprints")
 		}
+		if collide {
+			r.Count("assemble:distinct-label-sets-with-the-same-blank-joined-text")
+		}
+		pstr := map[string][][2]string{}
+		for fp, l := range lbls {
+			pstr[strconv.FormatUint(fp, 10)] = l
+		}
 		lstr := map[string]string{}
 		for fp, l := range lbls {
 			lstr[strconv.FormatUint(fp, 10)] = c17LabelsStr(l)
 		}
-		cases = append(cases, c17AsmCase{Stream: "assemble", Rows: rs, Labels: lstr})
+		cases = append(cases, c17AsmCase{Stream: "assemble", Rows: rs, Labels: lstr, Pairs: pstr})
 		r.Case("assemble:"+rs, len(fps) >= 2)
 		switch {
 		case len(fps) == 0:
@@ -469,7 +517,7 @@ func init() {
 		if tier != "quick" {
 			n = 10000
 		}
-		r.Rule += "; assemble: 0..6 (10%: 7..20) fingerprints in ascending order (small, <1000, or full 64-bit), 1..7 rows each, timestamps ascending with repeats (10% of cases unsorted inside a series), label sets distinct per fingerprint and stored in arbitrary order; non-trivial = ≥ 2 series"
+		r.Rule += "; assemble: 0..6 (10%: 7..20) fingerprints in ascending order (small, <1000, or full 64-bit), 1..7 rows each, timestamps ascending with repeats (10% of cases unsorted inside a series), label sets distinct per fingerprint and stored in arbitrary order, 15 %: a label set stored under two fingerprints, 12 %: two different label sets whose name=value pairs joined by blanks read the same ({a=\"b c=d\"} vs {a=\"b\", c=\"d\"}); non-trivial = ≥ 2 series"
 		return c17Assembly(r, rng, n)
 	})
 	c17ReplayMore["assemble"] = func(r *h.Result, raw json.RawMessage) error {
@@ -482,8 +530,15 @@ func init() {
 			return err
 		}
 		lbls := map[uint64][][2]string{}
+		for k, v := range c.Pairs {
+			fp, _ := strconv.ParseUint(k, 10, 64)
+			lbls[fp] = v
+		}
 		for k, v := range c.Labels {
 			fp, _ := strconv.ParseUint(k, 10, 64)
+			if _, ok := lbls[fp]; ok {
+				continue
+			}
 			for _, kv := range strings.Split(v, ",") {
 				if i := strings.IndexByte(kv, '='); i >= 0 {
 					lbls[fp] = append(lbls[fp], [2]string{kv[:i], kv[i+1:]})
